@@ -47,7 +47,11 @@ RULE_ADDED = (
               "Round 12: images given through a symbolic-linked directory followed by '..'. "
               ' '
               'Round 13: images given under a name that is a symbolic or hard link to another i'
-              'mage of the same run. ')
+              'mage of the same run. '
+              ' '
+              'Round 14: one signing run in eight gets a one-time key with a zero-leading coord'
+              "inate (the library's generator asked again until it yields one); tool runs with "
+              'terminal / locale variables exported. ')
 RULE = RULE + " " + RULE_ADDED.strip()
 ASSUMPTIONS = [
     "own Intel-HEX writer (pv/gen/ihex.py); areas do not overlap",
